@@ -16,7 +16,7 @@ func init() {
 // the list of differences (order included: the JSON report is written in this order, and an
 // ignore file must keep matching) does not depend on map iteration order
 func VerifC07DiffOrder() {
-	kind := vChoice("kind", 5)
+	kind := vChoice("kind", 6)
 	var a, b *spec.Swagger
 	switch kind {
 	case 0: // spec-level aspects
@@ -58,6 +58,31 @@ func VerifC07DiffOrder() {
 			r[404] = r[200]
 			delete(r, 200)
 		}
+	case 5: // definitions no operation refers to, one of them referring to another one that changed
+		mk := func(changed bool) *spec.Swagger {
+			sw := vSpecWithParams()
+			leafT := "string"
+			if changed {
+				leafT = "integer"
+			}
+			leaf := spec.Schema{}
+			leaf.Type = spec.StringOrArray{"object"}
+			lp := spec.Schema{}
+			lp.Type = spec.StringOrArray{leafT}
+			leaf.Properties = map[string]spec.Schema{"v": lp}
+			holder := spec.Schema{}
+			holder.Type = spec.StringOrArray{"object"}
+			holder.Properties = map[string]spec.Schema{"leaf": *spec.RefSchema("#/definitions/Leaf")}
+			other := spec.Schema{}
+			other.Type = spec.StringOrArray{"object"}
+			other.Properties = map[string]spec.Schema{"w": lp}
+			sw.Definitions = spec.Definitions{"Holder": holder, "Leaf": leaf}
+			if vBool2("third") {
+				sw.Definitions["Other"] = other
+			}
+			return sw
+		}
+		a, b = mk(false), mk(true)
 	default: // two parameters added/removed
 		p := vQueryParam("p", "string", "", false, spec.CommonValidations{})
 		q := vQueryParam("q", "string", "", vBool2("q.required"), spec.CommonValidations{})
